@@ -2,15 +2,19 @@
      ViewRepresentation.__eq__ / every *._equiv_nodes / TableDescription.__eq__   (view_representations.py)
      Value / ListTerm / ColumnReference / Expression .is_equal                     (expr_rep.py)
      RecordMap.__eq__ / RecordSpecification.__eq__                                 (cdata.py)
-   transcribed field by field, INCLUDING what they forget to compare.  Each place where the code on the unchanged tree
-   forgets (or conflates) something is a field of `quirks`; `q_unchanged` is the code as found, `q_fixed` the code after
-   the proposed repairs.  The harness determines the flags of the tree under test by replaying one witness per flag and the
-   correspondence run then compares `eop_eqb` under those flags with the real `==` on thousands of pairs.
+   transcribed field by field.  THE CODE AS IT IS NOW is `pipeline_eqb` (= eop_eqb q_fixed) and `expr_is_equal`
+   (= is_equal q_fixed): after the commits a4bd890 (constants compared by type and value, nan = nan, list literals element
+   by element), 23068d3 (order of extend/project assignments), 21fc6b8 (RecordMap blocks_out), c0b2f31 (order of rename-map
+   entries) and 5631bb4 (TableDescription: name, columns, qualifiers).  The correspondence run compares `pipeline_eqb` with
+   the real `==` on thousands of pairs on every run.
+   The record `quirks` keeps the six comparisons the code used to forget as switches: `q_unchanged` is the code BEFORE those
+   commits (kept for the record: the witnesses of the repaired defects, and theorems that hold for every combination of
+   switches); a switch that is on models a regression of the corresponding fix.
 
    `eop` carries every field the node classes store and that results or SQL depend on.  Conventions of the converter
-   (harness/props/C11.py): dict-valued fields whose iteration order the code never reads (rename maps, qualifiers) are given
-   sorted by key, so Python's unordered dict == is list equality; `ops` of extend/project keep the dict order (it decides the
-   order of new columns and of the SELECT list); floats are Qred-normal fractions; control-table cells are constants
+   (harness/props/C11.py): the qualifiers dict (looked up by key only) is given sorted by key, so Python's unordered dict ==
+   is list equality; `ops` of extend/project and the rename maps keep the dict order (it decides the order of new columns
+   and of the SELECT list); floats are Qred-normal fractions; control-table cells are constants
    (RecordSpecification.__eq__ compares repr text, which is injective on them).
    Not modelled (converter refuses, the oracle still runs): DictTerm (mapv), Expression.params (never set by the builders),
    SQLNode, NaN inside list literals, rename maps with repeated source columns. *)
@@ -20,17 +24,19 @@ From DA Require Import Base.PyRT Base.Val Model.Sem.
 Local Open Scope string_scope.
 Local Open Scope list_scope.
 
-(* ------------------------------------------------------------------ what the code forgets *)
+(* ------------------------------------------------------------------ what the code used to forget (all off = the code now) *)
 Record quirks := mkq {
   q_table_key_only : bool;      (* TableDescription.__eq__ compares only the key (= table name): columns and qualifiers are ignored *)
   q_ops_unordered : bool;       (* ExtendNode/ProjectNode._equiv_nodes compare the assignment dict as an unordered mapping *)
   q_const_py_eq : bool;         (* Value.is_equal is Python ==: True = 1 = 1.0, and nan <> nan *)
   q_list_len_only : bool;       (* ListTerm.is_equal is list == over Value objects; Value.__eq__ builds a (truthy) expression,
                                    so parsed list literals of equal length always compare equal *)
-  q_recmap_out_skipped : bool   (* RecordMap.__eq__ compares blocks_out only when blocks_in is not None *)
+  q_recmap_out_skipped : bool;  (* RecordMap.__eq__ compares blocks_out only when blocks_in is not None *)
+  q_maps_unordered : bool       (* RenameColumnsNode/MapColumnsNode._equiv_nodes compare column_remapping with dict ==, i.e.
+                                   unordered, although SQL generation prints the renamed columns in the dict's order *)
 }.
-Definition q_unchanged := mkq true true true true true.
-Definition q_fixed := mkq false false false false false.
+Definition q_unchanged := mkq true true true true true true.
+Definition q_fixed := mkq false false false false false false.
 
 (* ------------------------------------------------------------------ constants and expressions *)
 Inductive pyconst := KNone | KBool (b : bool) | KInt (z : Z) | KFloat (q : Q) | KNaN | KStr (s : string).
@@ -172,6 +178,13 @@ Definition ops_eq (q : quirks) (o1 o2 : list (string * pexpr)) : bool :=
   (if q_ops_unordered q then set_eqb (map fst o1) (map fst o2) else eqb (map fst o1) (map fst o2)) &&
   forallb (fun k => match dict_get o1 k, dict_get o2 k with Some e1, Some e2 => is_equal q e1 e2 | _, _ => false end) (map fst o1).
 
+(* RenameColumnsNode / MapColumnsNode._equiv_nodes: `self.column_remapping == other.column_remapping` (dict ==: same keys,
+   same value under every key); repaired: the item LISTS are compared *)
+Definition smap_eq (q : quirks) (m1 m2 : list (string * string)) : bool :=
+  if q_maps_unordered q then
+    set_eqb (map fst m1) (map fst m2) && forallb (fun k => eqb (dict_get m1 k) (dict_get m2 k)) (map fst m1)
+  else eqb m1 m2.
+
 (* ViewRepresentation.__eq__: same class, column_names, number of sources, _equiv_nodes, then the sources with THEIR __eq__
    (TableDescription overrides __eq__: only the key) *)
 Fixpoint eop_eqb (q : quirks) (a b : eop) {struct a} : bool :=
@@ -191,9 +204,9 @@ Fixpoint eop_eqb (q : quirks) (a b : eop) {struct a} : bool :=
   | EDropCols s cs, EDropCols s' cs' =>
       eqb (ecolumn_names a) (ecolumn_names b) && eqb cs cs' && eop_eqb q s s'
   | ERename s m, ERename s' m' =>
-      eqb (ecolumn_names a) (ecolumn_names b) && eqb m m' && eop_eqb q s s'
+      eqb (ecolumn_names a) (ecolumn_names b) && smap_eq q m m' && eop_eqb q s s'
   | EMapCols s m d, EMapCols s' m' d' =>
-      eqb (ecolumn_names a) (ecolumn_names b) && (eqb m m' && eqb d d') && eop_eqb q s s'
+      eqb (ecolumn_names a) (ecolumn_names b) && (smap_eq q m m' && eqb d d') && eop_eqb q s s'
   | EOrder s cs r l, EOrder s' cs' r' l' =>
       eqb (ecolumn_names a) (ecolumn_names b) && (eqb cs cs' && eqb r r' && eqb l l') && eop_eqb q s s'
   | EJoin x y oa ob jt, EJoin x' y' oa' ob' jt' =>
@@ -206,6 +219,10 @@ Fixpoint eop_eqb (q : quirks) (a b : eop) {struct a} : bool :=
       eqb (ecolumn_names a) (ecolumn_names b) && recmap_eqb q rm rm' && eop_eqb q s s'
   | _, _ => false
   end.
+
+(* the code as it is now: nothing forgotten *)
+Definition expr_is_equal : pexpr -> pexpr -> bool := is_equal q_fixed.
+Definition pipeline_eqb : eop -> eop -> bool := eop_eqb q_fixed.
 
 (* ------------------------------------------------------------------ the part of a tree that results and SQL read *)
 (* erased: Expression.method (only printing to Python source reads it), how a list literal's elements are boxed,
@@ -235,13 +252,14 @@ Fixpoint core (p : eop) : eop :=
   | EConvert s rm => EConvert (core s) (core_recmap rm)
   end.
 
-(* dict invariant: assignment keys are unique *)
+(* dict invariant: assignment keys and rename-map keys are unique *)
 Fixpoint nodupb {A} `{EqDec A} (l : list A) : bool := match l with [] => true | x :: t => negb (mem x t) && nodupb t end.
 Fixpoint wfb (p : eop) : bool :=
   match p with
   | ETable _ _ _ => true
   | EExtend s ops _ _ _ _ | EProject s ops _ => nodupb (map fst ops) && wfb s
-  | ESelectRows s _ | ESelectCols s _ | EDropCols s _ | ERename s _ | EMapCols s _ _ | EOrder s _ _ _ | EConvert s _ => wfb s
+  | ERename s m | EMapCols s m _ => nodupb (map fst m) && wfb s
+  | ESelectRows s _ | ESelectCols s _ | EDropCols s _ | EOrder s _ _ _ | EConvert s _ => wfb s
   | EJoin x y _ _ _ | EConcat x y _ _ _ => wfb x && wfb y
   end.
 
@@ -289,8 +307,8 @@ Fixpoint agree (q : quirks) (a b : eop) {struct a} : bool :=
   | EExtend s ops _ _ _ _, EExtend s' ops' _ _ _ _ => agree_ops q ops ops' && agree q s s'
   | EProject s ops _, EProject s' ops' _ => agree_ops q ops ops' && agree q s s'
   | ESelectRows s e, ESelectRows s' e' => agree_expr q e e' && agree q s s'
-  | ESelectCols s _, ESelectCols s' _ | EDropCols s _, EDropCols s' _ | ERename s _, ERename s' _
-  | EMapCols s _ _, EMapCols s' _ _ | EOrder s _ _ _, EOrder s' _ _ _ => agree q s s'
+  | ERename s m, ERename s' m' | EMapCols s m _, EMapCols s' m' _ => (if q_maps_unordered q then eqb m m' else true) && agree q s s'
+  | ESelectCols s _, ESelectCols s' _ | EDropCols s _, EDropCols s' _ | EOrder s _ _ _, EOrder s' _ _ _ => agree q s s'
   | EJoin x y _ _ _, EJoin x' y' _ _ _ | EConcat x y _ _ _, EConcat x' y' _ _ _ => agree q x x' && agree q y y'
   | EConvert s rm, EConvert s' rm' => agree_recmap q rm rm' && agree q s s'
   | _, _ => true
